@@ -74,7 +74,7 @@ theorem numOK_env {ns0 : NumSem} (h : NumOK ns0) (m : MModule) (cS cT : Nat → 
   ⟨h.arity, h.typed⟩
 
 theorem memOK_env {ns0 : NumSem} (h : MemOK ns0) (m : MModule) (cS cT : Nat → List Val → GS → Out (Option Val × GS)) : MemOK (m.env ns0 cS cT) :=
-  ⟨h.loadRef, h.loadTrap, h.storeRef, h.storeTrap, h.growTyped, h.bulkRef, h.bulkTrap⟩
+  ⟨h.loadRef, h.loadTrap, h.storeRef, h.storeTrap, h.growTyped, h.bulkRef, h.bulkTrap, h.atomRef, h.atomTrap⟩
 
 theorem toOut_val {r : FRes} {x : Option Val × GS} (h : r.toOut = .val x) : r = .value x.1 x.2 := by
   cases r <;> simp [FRes.toOut] at h; subst h; rfl
